@@ -75,6 +75,16 @@ class GroundTruthOracle:
 
     def _which(self, text) -> Optional[int]:
         self.wd.tick()
+        # XML allows white space before the root element (but nothing else: a
+        # declaration must be the very first thing): leading blanks of the
+        # queried prefix are skipped.  (Found by a seeded change whose symbolic
+        # counterexample did not reproduce on real expat.)
+        k = 0
+        n = len(text)
+        while k < n and (text[k] == "\n" or text[k] == " " or text[k] == "\t" or text[k] == "\r"):
+            k += 1
+        if k:
+            text = text[k:]
         for i, m in enumerate(self.messages):
             if str_eq(text, m):
                 return i
@@ -183,7 +193,7 @@ REAL_MSGS = {
     "a": '<getProperties version="1.7" device="CAMERA"/>',
     "b": '<enableBLOB device="CAMERA">Also</enableBLOB>',
 }
-REAL_FILLERS = {"": "", "\n": "\n", "<?x?>\n": '<?xml version="1.0"?>\n'}
+REAL_FILLERS = {"": "", "\n": "\n", "<?x?>\n": '<?xml version="1.0"?>\n', "\n<?x?>\n": '\n<?xml version="1.0"?>\n'}
 
 
 def real_part(abstract: str) -> str:
